@@ -382,6 +382,13 @@ def setup():
         S.setup()
     except Exception as e:
         print("search setup skipped: %s" % e)
+    try:
+        # warm the Kani project: builds the dependencies once and clones the worker target directories
+        import kani_run as K
+        r = K.run(["c06_canon_small__prompt_k0"] if False else P.PROPS["C06"]["kani_quick"][:1], repo="/repo", tier="quick", jobs=16, timeout_s=900)
+        print("kani warm-up: %s" % [(x["harness"], x["status"]) for x in r])
+    except Exception as e:
+        print("kani warm-up skipped: %s" % e)
     return 0 if ok else 1
 
 
